@@ -251,7 +251,9 @@ AddEnts(ent, es, k) == IF k > Len(es) THEN ent
                        ELSE AddEnts(IF es[k].hash \in DOMAIN ent THEN ent ELSE (es[k].hash :> es[k]) @@ ent, es, k + 1)
 
 \* Result: [S (expected state after the block, continuing from the observed decisions), iss, info]
-ApplyBlock(S, in, O) ==
+\* avgMode: "design" = the averaging window the design prescribes (AvgWindow: a function of the recorded rates only);
+\*          "cache"  = the window as the implementation's in-memory cache maintained it before the repair.
+ApplyBlockM(S, in, O, avgMode) ==
   LET h == in.h
       \* stages 1-2: one-time adjustments
       b2 == MintStage(NullifyBurn(S.bal, h), h)
@@ -282,7 +284,9 @@ ApplyBlock(S, in, O) ==
       \* stages 6-8: bank row, held batches, PEG requests (only in a rated block, from TxConv)
       txOn == h >= Act("TxConv")
       lr == LastRated(S, h)
-      avgs == IF lr = 0 THEN [t \in Assets |-> NZero] ELSE Averages(S, lr)
+      cache2 == IF ratedNow /\ txOn /\ lr > 0 THEN CacheStep(S, S.cache, lr) ELSE S.cache
+      avgs == IF lr = 0 THEN [t \in Assets |-> NZero]
+              ELSE IF avgMode = "cache" THEN AveragesFromCache(S, cache2) ELSE Averages(S, lr)
       acc0 == [bal |-> b5, st |-> S.st, rel |-> S.rel, iss |-> {}, to |-> EmptyFn, visited |-> {},
                peg |-> <<>>, pegOut |-> <<>>, pegPaid |-> NZero, pegReq |-> NZero,
                newHeld |-> <<>>, taint |-> FALSE]
@@ -314,10 +318,13 @@ ApplyBlock(S, in, O) ==
              rel |-> acc3.rel,
              st |-> stFin,
              ent |-> AddEnts(S.ent, in.entries, 1),
-             bank |-> bankFin,
+             bank |-> bankFin, cache |-> cache2,
              snapCur |-> cur2, snapPast |-> past2]
   IN  [S |-> Sn, iss |-> rIss \cup acc3.iss \cup sIss,
        info |-> [taint |-> acc3.taint \/ stray # {}, to |-> acc3.to, pegOut |-> acc2.pegOut, sprIdx |-> sprIdx,
-                 stakers |-> sp.stakers, ratedSpec |-> R.rated, visited |-> acc3.visited, bankRow |-> bankRow]]
+                 stakers |-> sp.stakers, ratedSpec |-> R.rated, visited |-> acc3.visited, bankRow |-> bankRow,
+                 avgs |-> avgs, avgsDiffer |-> lr > 0 /\ AveragesFromCache(S, cache2) # Averages(S, lr)]]
+
+ApplyBlock(S, in, O) == ApplyBlockM(S, in, O, "design")
 
 =============================================================================
